@@ -43,6 +43,11 @@ def cases(tier, seed):
                     "ff": common.FFS[i % 6], "p": {"maxlen": 6, "waters": [2, 4, 7], "na_prob": 0.1}})
     nn = 36 if tier == "quick" else 4000
     for i in range(nn):
+        if i % 4 == 3:
+            # chain ends hidden inside one chain id (two peptides, no TER, the first ends in OXT)
+            out.append({"kind": "neutral", "w": "topostress", "seed": seed * 14009 + i, "ff": "PARSE",
+                        "p": {"scheme": ["merged_oxt", "repeated_oxt", "blank_ter", "het_tail"][(i // 4) % 4]}})
+            continue
         out.append({"kind": "neutral", "w": "synth", "seed": seed * 14009 + i, "ff": "PARSE",
                     "p": {"maxlen": 5, "waters": [0, 2], "na": False, "variant_prob": 0.1}})
     return out
@@ -295,6 +300,10 @@ def run_neutral(spec, res):
         gained_ho = "HO" in nb and "HO" not in na
         same = [(x["name"], x["xs"], x["ys"], x["zs"], x["qs"], x["rs"]) for x in ra_] == \
                [(x["name"], x["xs"], x["ys"], x["zs"], x["qs"], x["rs"]) for x in rb_]
+        if (lost_amine and "--neutraln" not in which) or (gained_ho and "--neutralc" not in which):
+            res.violate("neutral/terminus-neutralised-without-its-flag", f"residue {ra_[0]['resn']} {ra_[0]['resi']}: "
+                        f"{'N-terminus lost an amine hydrogen' if lost_amine else 'C-terminus gained HO'} although only "
+                        f"{which} was given", **wit)
         if lost_amine or gained_ho:
             d = (-1 if lost_amine else 0) + (1 if gained_ho else 0)
             shift_expected += d
